@@ -352,8 +352,9 @@ class Ev:
         self.env[st.name] = P.atom(("localcls", st.name))
 
     def s_Assign(self, st):
-        if isinstance(st.value, ast.IfExp) and len(st.targets) == 1 and isinstance(st.targets[0], (ast.Attribute, ast.Subscript, ast.Name)):
-            # x = A if c else B   is   if c: x = A  else: x = B   (one guarded assignment / store per alternative)
+        if isinstance(st.value, ast.IfExp) and len(st.targets) == 1 and isinstance(st.targets[0], ast.Name):
+            # x = A if c else B   is   if c: x = A  else: x = B   (one guarded assignment per alternative; the merged value is the same
+            # conditional term; stores into attributes / subscripts keep the conditional term as their value)
             new = ast.If(st.value.test, [ast.copy_location(ast.Assign([st.targets[0]], st.value.body), st)],
                          [ast.copy_location(ast.Assign([st.targets[0]], st.value.orelse), st)])
             return self.stmt(ast.fix_missing_locations(ast.copy_location(new, st)))
@@ -1084,6 +1085,14 @@ class Ev:
                 and args[0].const_value().denominator == 1 and args[0].const_value() >= 1:
             # m.group(k) of a match object is m.groups()[k - 1]
             return self.subscript(P.atom(("call", P.atom(("attr", ca[1], "groups")), ())), (P.const(int(args[0].const_value()) - 1),))
+        if ca and ca[0] == "attr" and ca[2] in ("match", "fullmatch", "search") and len(args) == 1 and not kwargs:
+            # PATTERN.match(s) of a compiled pattern is re.match(PATTERN, s) (re.compile("...").match(s) is re.match("...", s))
+            ba = ca[1].as_atom()
+            if ba and ba[0] == "name" and ba[1] not in ("self", "cls") and "." not in ba[1] and ba[1] not in self.param_names:
+                return P.atom(("call", P.name("re." + ca[2]), (ca[1], args[0])))
+            if ba and ba[0] == "call" and (ba[1].as_atom() or ("",))[0] == "name" and ba[1].as_atom()[1] == "re.compile" and len(ba[2]) == 1 \
+                    and not (len(ba) > 3 and ba[3]):
+                return P.atom(("call", P.name("re." + ca[2]), (ba[2][0], args[0])))
         if name == "slice" and 1 <= len(args) <= 3 and not kwargs:
             # slice(a, b) bound to a local and used as a subscript is a[a:b]
             lo, hi, st = (NONE, args[0], NONE) if len(args) == 1 else (args[0], args[1], args[2] if len(args) == 3 else NONE)
